@@ -438,4 +438,93 @@ class RandomRich(Bounded):
         return None
 
 
-BOUNDED = [WriteGroupings, WireSplits, RandomRich]
+class ReentrantDelivery(Bounded):
+    prop = "C38"
+    title = "bytes delivered from inside a command / application-data handler (a synchronous peer) are still transparent"
+    scope = ("first delivery: optional application bytes, then one of IAC AYT / IAC NOP / IAC GA / IAC WILL x / IAC SB x "
+             "IAC SE, optionally followed by more application bytes; while the receiving application handles the command "
+             "(or the data flushed just before it) it feeds a second wire stream -- the encoding of a payload drawn from "
+             "{plain, IAC bytes, LF, NUL, bytes that are command codes} -- to the same parser; the application must "
+             "see both payloads intact, in the order of arrival, and exactly the one command; first stream also cut "
+             "between any two bytes; exhaustive")
+    functions = ["Telnet.dataReceived", "TelnetTransport.write"]
+
+    PAYLOADS = (b"hello\n", b"\xff\xf1data\n", b"\xff", b"\n\xff\n", b"\x00\xf9", b"\xfa\xf0", b"")  # no CR: see the known findings
+    COMMANDS = {"AYT": (telnet.IAC + telnet.AYT, ("command", telnet.AYT, None)),
+                "NOP": (telnet.IAC + telnet.NOP, ("command", telnet.NOP, None)),
+                "GA": (telnet.IAC + telnet.GA, ("command", telnet.GA, None)),
+                "SB": (telnet.IAC + telnet.SB + b"\x18\x01" + telnet.IAC + telnet.SE, ("subnegotiation", b"\x18", (b"\x01",)))}
+
+    def cases(self, tier, rng):
+        for name in self.COMMANDS:
+            for before in (b"", b"ab"):
+                for after in (b"", b"yz\n"):
+                    for payload in self.PAYLOADS:
+                        for trigger in ("command", "data-before"):
+                            if trigger == "data-before" and not before:
+                                continue
+                            n = len(before) + len(self.COMMANDS[name][0]) + len(after)
+                            # a cut is only meaningful for the command trigger: the flush at the end of a delivery
+                            # that stops inside an IAC sequence is not a point where the peer's next bytes can arrive
+                            for c in ([None] + (list(range(1, n)) if trigger == "command" else [])):
+                                yield (name, before, after, payload, trigger, c)
+
+    def check(self, case):
+        name, before, after, payload, trigger, c = case
+        cmd_wire, cmd_event = self.COMMANDS[name]
+        second_wire = send([("w", payload)]) if payload else b""
+        t, app, back = _endpoint()
+        fed = []
+
+        def feed():
+            if not fed:
+                fed.append(True)
+                if second_wire:
+                    t.dataReceived(second_wire)
+
+        orig_data, orig_cmd, orig_sub = app.dataReceived, app.unhandledCommand, app.unhandledSubnegotiation
+
+        def on_data(data):
+            orig_data(data)
+            if trigger == "data-before":
+                feed()
+
+        def on_cmd(command, argument):
+            orig_cmd(command, argument)
+            if trigger == "command":
+                feed()
+
+        def on_sub(command, data):
+            orig_sub(command, data)
+            if trigger == "command":
+                feed()
+
+        app.dataReceived, app.unhandledCommand, app.unhandledSubnegotiation = on_data, on_cmd, on_sub
+        first_wire = send([("w", before)]) if before else b""
+        first_wire += cmd_wire
+        first_wire += send([("w", after)]) if after else b""
+        chunks = [first_wire] if c is None else [first_wire[:c], first_wire[c:]]
+        try:
+            for ch in chunks:
+                t.dataReceived(ch)
+        except Exception as e:  # noqa: BLE001
+            return "raised %r" % (e,)
+        if not fed:
+            return None  # the trigger never came (no data before the command in this cut): nothing to judge
+        got = b"".join(e[1] for e in app.events if e[0] == "data")
+        others = [e for e in app.events if e[0] != "data"]
+        # order of arrival: what precedes the trigger, then the nested payload, then the rest of the first stream
+        if trigger == "command":
+            want = before + payload + after
+        else:
+            # the data flushed before the command may be a prefix of `before` only if the cut fell inside it
+            k = len(app.events[0][1]) if app.events and app.events[0][0] == "data" else 0
+            want = before[:k] + payload + before[k:] + after
+        if got != want:
+            return "application saw %r, sent %r then (nested) %r then %r" % (got, before, payload, after)
+        if others != [cmd_event]:
+            return "events other than data: %r, expected exactly %r" % (others, cmd_event)
+        return None
+
+
+BOUNDED = [WriteGroupings, WireSplits, RandomRich, ReentrantDelivery]
